@@ -31,24 +31,27 @@ import (
 // ---- configuration of one case ----
 
 type desc struct {
-	Name    string   `json:"name"`
-	Res     []string `json:"resources"` // meaningful when ResSet
-	ResSet  bool     `json:"resources_set"`
-	Acc     []string `json:"access"`
-	AccSet  bool     `json:"access_set"`
-	Kinds   []string `json:"handler_kinds"`                // get call auth access new
-	HPat    string   `json:"handler_pattern"`              // pattern the handler is registered on
-	Layout  []hdl    `json:"layout,omitempty"`             // further Handle calls (nested patterns, mounted muxes, root pattern)
-	Build   []op     `json:"construction_order,omitempty"` // explicit sequence of NewMux / Handle / Mount / Route calls building the mux tree
-	Order   string   `json:"order_name,omitempty"`
-	Restart []phase  `json:"restart,omitempty"`      // further runs of the SAME Service object: Shutdown, reconfigure, Serve on a fresh connection
-	Run     int      `json:"observed_run,omitempty"` // which run of the sequence this case observes (0 = first)
-	Queue   string   `json:"queue"`                  // "default" (= service name), "off", or a group name
-	Extra   int      `json:"extra_resetall"`
-	Live    bool     `json:"live,omitempty"` // real nats-server + forced reconnect
-	NatsSub string   `json:"nats_sub,omitempty"`
-	NatsSbj string   `json:"nats_subject,omitempty"`
-	IsNats  bool     `json:"nats_differential,omitempty"`
+	Name     string   `json:"name"`
+	Res      []string `json:"resources"` // meaningful when ResSet
+	ResSet   bool     `json:"resources_set"`
+	Acc      []string `json:"access"`
+	AccSet   bool     `json:"access_set"`
+	Kinds    []string `json:"handler_kinds"`                // get call auth access new
+	HPat     string   `json:"handler_pattern"`              // pattern the handler is registered on
+	Layout   []hdl    `json:"layout,omitempty"`             // further Handle calls (nested patterns, mounted muxes, root pattern)
+	Build    []op     `json:"construction_order,omitempty"` // explicit sequence of NewMux / Handle / Mount / Route calls building the mux tree
+	Order    string   `json:"order_name,omitempty"`
+	Restart  []phase  `json:"restart,omitempty"`      // further runs of the SAME Service object: Shutdown, reconfigure, Serve on a fresh connection
+	Run      int      `json:"observed_run,omitempty"` // which run of the sequence this case observes (0 = first)
+	Queue    string   `json:"queue"`                  // "default" (= service name), "off", or a group name
+	Extra    int      `json:"extra_resetall"`
+	Ops      []int    `json:"ops_while_serving,omitempty"`     // 0 ResetAll, 1 reconnect (VerifHandleReconnect), 2 disconnect; empty = Extra x ResetAll
+	Off      []int    `json:"ops_while_not_started,omitempty"` // the same operations before the first Serve and after every Shutdown
+	SetReset bool     `json:"use_SetReset,omitempty"`          // configure through the deprecated alias SetReset
+	Live     bool     `json:"live,omitempty"`                  // real nats-server + forced reconnect
+	NatsSub  string   `json:"nats_sub,omitempty"`
+	NatsSbj  string   `json:"nats_subject,omitempty"`
+	IsNats   bool     `json:"nats_differential,omitempty"`
 }
 
 // hdl is one Handle call: on the service itself (Mount == "") or on a sub-mux mounted at Mount.
@@ -68,6 +71,7 @@ type phase struct {
 	Add         []hdl    `json:"add_handlers,omitempty"` // Handle calls made while stopped
 	Queue       string   `json:"queue,omitempty"`        // SetQueueGroup while stopped ("" = unchanged)
 	Extra       int      `json:"extra_resetall"`
+	Ops         []int    `json:"ops_while_serving,omitempty"`
 }
 
 // op is one mux construction call.  Muxes are numbered: 0 is the service itself, others are created by
@@ -217,6 +221,7 @@ type recConn struct {
 	subs   []subRec
 	pubs   []pubRec
 	closed bool
+	tr     *tracer
 }
 type pubRec struct {
 	subject string
@@ -239,6 +244,11 @@ func (c *recConn) Publish(subject string, payload []byte) error {
 	c.mu.Lock()
 	defer c.mu.Unlock()
 	c.pubs = append(c.pubs, pubRec{subject, append([]byte(nil), payload...)})
+	if c.tr != nil && subject == "system.reset" {
+		if pl, ok := decodeReset(payload); ok {
+			c.tr.add("EReset " + payloadTerm(pl))
+		}
+	}
 	return nil
 }
 func (c *recConn) PublishRequest(subject, reply string, data []byte) error {
@@ -278,13 +288,19 @@ func (c *recConn) Close() {
 type recLogger struct {
 	mu   sync.Mutex
 	errs []string
+	tr   *tracer // "Failed to reset" errors go to the trace instead
 }
 
 func (l *recLogger) Infof(string, ...interface{})  {}
 func (l *recLogger) Tracef(string, ...interface{}) {}
 func (l *recLogger) Errorf(f string, v ...interface{}) {
+	m := fmt.Sprintf(f, v...)
+	if l.tr != nil && strings.Contains(m, "Failed to reset: service not started") {
+		l.tr.add("ERefused")
+		return
+	}
 	l.mu.Lock()
-	l.errs = append(l.errs, fmt.Sprintf(f, v...))
+	l.errs = append(l.errs, m)
 	l.mu.Unlock()
 }
 
@@ -310,7 +326,7 @@ func buildService(d desc, lg *recLogger) *res.Service {
 	} else {
 		registerHandles(s, d.handles())
 	}
-	setOwned(s, d.Res, d.ResSet, d.Acc, d.AccSet)
+	setOwned(s, d.SetReset, d.Res, d.ResSet, d.Acc, d.AccSet)
 	setQueue(s, d.Queue)
 	return s
 }
@@ -353,7 +369,7 @@ func registerHandles(s *res.Service, hs []hdl) {
 	}
 }
 
-func setOwned(s *res.Service, res []string, resSet bool, acc []string, accSet bool) {
+func setOwned(s *res.Service, alias bool, res []string, resSet bool, acc []string, accSet bool) {
 	var r, a []string
 	if resSet {
 		r = append([]string{}, res...)
@@ -361,7 +377,11 @@ func setOwned(s *res.Service, res []string, resSet bool, acc []string, accSet bo
 	if accSet {
 		a = append([]string{}, acc...)
 	}
-	s.SetOwnedResources(r, a)
+	if alias {
+		s.SetReset(r, a)
+	} else {
+		s.SetOwnedResources(r, a)
+	}
 }
 
 func setQueue(s *res.Service, q string) {
@@ -481,10 +501,60 @@ func payloadTerm(p payload) string {
 }
 
 type observed struct {
-	err    int
-	subs   []subRec
-	resets []payload
-	other  int
+	err      int
+	subs     []subRec
+	resets   []payload
+	other    int
+	script   []int    // operations actually performed while serving
+	trace    []string // Coq terms of the events seen while serving, in order
+	off      []int    // operations performed while not started
+	offTrace []string
+}
+
+// tracer orders the events of one service: reset publishes (from the connection), callbacks, refused resets.
+type tracer struct {
+	mu  sync.Mutex
+	evs []string
+}
+
+func (t *tracer) add(e string) {
+	t.mu.Lock()
+	t.evs = append(t.evs, e)
+	t.mu.Unlock()
+}
+func (t *tracer) take() []string {
+	t.mu.Lock()
+	defer t.mu.Unlock()
+	e := t.evs
+	t.evs = nil
+	return e
+}
+
+func script(extra int, ops []int) []int {
+	if len(ops) > 0 {
+		return ops
+	}
+	return make([]int, extra) // extra x ResetAll
+}
+
+func ints(xs []int) string {
+	ys := make([]string, len(xs))
+	for i, x := range xs {
+		ys[i] = fmt.Sprint(x)
+	}
+	return List(ys)
+}
+
+// doOp performs one scripted operation.
+func doOp(s *res.Service, op int) {
+	switch op {
+	case 0:
+		s.ResetAll()
+	case 1:
+		s.VerifHandleReconnect()
+	default:
+		s.VerifHandleDisconnect()
+	}
 }
 
 func caseTerm(d desc, o observed) string {
@@ -496,9 +566,15 @@ func caseTerm(d desc, o observed) string {
 	for i, p := range o.resets {
 		ps[i] = payloadTerm(p)
 	}
-	return fmt.Sprintf("SC %s %s %s %s %s %d %s %s %d %d",
+	nreset := 0
+	for _, op := range o.script {
+		if op < 2 {
+			nreset++
+		}
+	}
+	return fmt.Sprintf("SC %s %s %s %s %s %d %s %s %d %s %s %s %s %d",
 		B(d.Name), optBList(d.Res, d.ResSet), optBList(d.Acc, d.AccSet), layoutTerm(d),
-		B(effQueue(d)), o.err, List(ss), List(ps), d.Extra, o.other)
+		B(effQueue(d)), o.err, List(ss), List(ps), nreset, ints(o.script), List(o.trace), ints(o.off), List(o.offTrace), o.other)
 }
 
 func classifyErrs(errs []string) int {
@@ -520,17 +596,38 @@ func classifyErrs(errs []string) int {
 	return e
 }
 
-// serveOnce serves the service on a fresh recording connection, calls ResetAll extra times and shuts down.
-func serveOnce(s *res.Service, lg *recLogger, extra int) (o observed, impl string) {
+// serveOnce performs the operations pre on the not yet started service, serves it on a fresh recording
+// connection, performs the operations ops while it is serving, shuts it down and, if it had been
+// serving, performs the operations post on the stopped service.  Operations: 0 ResetAll, 1 reconnect
+// (the handler the service installs on a nats.Conn), 2 disconnect.
+func serveOnce(s *res.Service, lg *recLogger, ops, pre, post []int) (o observed, impl string) {
 	defer func() {
 		if r := recover(); r != nil {
 			impl = fmt.Sprintf("panic: %v", r)
 		}
 	}()
+	tr := &tracer{}
+	lg.mu.Lock()
+	lg.errs = nil
+	lg.tr = tr
+	lg.mu.Unlock()
+	nerrs := func() int {
+		lg.mu.Lock()
+		defer lg.mu.Unlock()
+		return len(lg.errs)
+	}
+	s.SetOnReconnect(func(*res.Service) { tr.add("EOnReconnect") })
+	s.SetOnDisconnect(func(*res.Service) { tr.add("EOnDisconnect") })
+	for _, op := range pre {
+		doOp(s, op)
+		o.off = append(o.off, op)
+	}
+	o.offTrace = tr.take()
+	o.other += nerrs() // nothing but the refused resets may be logged while not started
 	lg.mu.Lock()
 	lg.errs = nil
 	lg.mu.Unlock()
-	conn := &recConn{}
+	conn := &recConn{tr: tr}
 	served := make(chan struct{})
 	s.SetOnServe(func(*res.Service) { close(served) })
 	done := make(chan error, 1)
@@ -546,10 +643,13 @@ func serveOnce(s *res.Service, lg *recLogger, extra int) (o observed, impl strin
 			return
 		}
 	}()
+	wasServing := false
 	select {
 	case <-served:
-		for i := 0; i < extra; i++ {
-			s.ResetAll()
+		wasServing = true
+		for _, op := range ops {
+			doOp(s, op)
+			o.script = append(o.script, op)
 		}
 		if err := s.Shutdown(); err != nil {
 			impl = "Shutdown: " + err.Error()
@@ -558,6 +658,7 @@ func serveOnce(s *res.Service, lg *recLogger, extra int) (o observed, impl strin
 		case <-done:
 		case <-time.After(10 * time.Second):
 			impl = "Serve did not return after Shutdown"
+			wasServing = false
 		}
 	case err := <-done:
 		// subscribe failed: serve shuts itself down and returns nil
@@ -567,23 +668,37 @@ func serveOnce(s *res.Service, lg *recLogger, extra int) (o observed, impl strin
 	case <-time.After(10 * time.Second):
 		impl = "Serve neither started nor returned"
 	}
-	conn.mu.Lock()
-	defer conn.mu.Unlock()
-	lg.mu.Lock()
-	defer lg.mu.Unlock()
-	o.err = classifyErrs(lg.errs)
-	o.subs = append(o.subs, conn.subs...)
-	for _, p := range conn.pubs {
-		if p.subject != "system.reset" {
-			o.other++
-			continue
+	o.trace = tr.take()
+	func() {
+		conn.mu.Lock()
+		defer conn.mu.Unlock()
+		lg.mu.Lock()
+		defer lg.mu.Unlock()
+		o.err = classifyErrs(lg.errs)
+		o.subs = append(o.subs, conn.subs...)
+		for _, p := range conn.pubs {
+			if p.subject != "system.reset" {
+				o.other++
+				continue
+			}
+			pl, ok := decodeReset(p.payload)
+			if !ok {
+				o.other++
+				continue
+			}
+			o.resets = append(o.resets, pl)
 		}
-		pl, ok := decodeReset(p.payload)
-		if !ok {
-			o.other++
-			continue
+	}()
+	if wasServing {
+		n0, p0 := nerrs(), len(conn.pubs)
+		for _, op := range post {
+			doOp(s, op)
+			o.off = append(o.off, op)
 		}
-		o.resets = append(o.resets, pl)
+		o.offTrace = append(o.offTrace, tr.take()...)
+		conn.mu.Lock()
+		o.other += nerrs() - n0 + len(conn.pubs) - p0
+		conn.mu.Unlock()
 	}
 	return
 }
@@ -613,7 +728,7 @@ func runRecorded(d desc) (out []runResult) {
 	if s == nil {
 		return
 	}
-	ob, iv := serveOnce(s, lg, d.Extra)
+	ob, iv := serveOnce(s, lg, script(d.Extra, d.Ops), d.Off, d.Off)
 	out = append(out, runResult{cur, ob, iv})
 	for k, ph := range d.Restart {
 		next := cur
@@ -635,7 +750,7 @@ func runRecorded(d desc) (out []runResult) {
 			}()
 			registerHandles(s, ph.Add)
 			if ph.Reconfigure {
-				setOwned(s, ph.Res, ph.ResSet, ph.Acc, ph.AccSet)
+				setOwned(s, d.SetReset, ph.Res, ph.ResSet, ph.Acc, ph.AccSet)
 			}
 			if ph.Queue != "" {
 				setQueue(s, ph.Queue)
@@ -646,7 +761,7 @@ func runRecorded(d desc) (out []runResult) {
 			return
 		}
 		cur = next
-		ob, iv := serveOnce(s, lg, ph.Extra)
+		ob, iv := serveOnce(s, lg, script(ph.Extra, ph.Ops), nil, d.Off)
 		out = append(out, runResult{cur, ob, iv})
 	}
 	return
@@ -778,6 +893,25 @@ func runLive(srv *server.Server, d desc) (o observed, impl string) {
 		panic(err)
 	}
 	obs.Flush()
+	var omu sync.Mutex
+	// drain moves the resets that have reached the observer into the observations
+	drain := func(wait time.Duration) {
+		omu.Lock()
+		defer omu.Unlock()
+		for {
+			m, err := och.NextMsg(wait)
+			if err != nil {
+				return
+			}
+			pl, ok := decodeReset(m.Data)
+			if !ok {
+				o.other++
+				continue
+			}
+			o.resets = append(o.resets, pl)
+			o.trace = append(o.trace, "EReset "+payloadTerm(pl))
+		}
+	}
 	px := newProxy(srv.Addr().String())
 	defer px.Close()
 	nc, err := nats.Connect("nats://"+px.ln.Addr().String(), nats.MaxReconnects(-1), nats.ReconnectWait(20*time.Millisecond))
@@ -789,7 +923,24 @@ func runLive(srv *server.Server, d desc) (o observed, impl string) {
 	served := make(chan struct{})
 	s.SetOnServe(func(*res.Service) { close(served) })
 	recon := make(chan struct{}, 16)
-	s.SetOnReconnect(func(*res.Service) { recon <- struct{}{} })
+	closing := false // Shutdown closes the nats.Conn, which reports one more disconnect: not part of the script
+	s.SetOnDisconnect(func(*res.Service) {
+		omu.Lock()
+		if !closing {
+			o.trace = append(o.trace, "EOnDisconnect")
+		}
+		omu.Unlock()
+	})
+	s.SetOnReconnect(func(*res.Service) {
+		// whatever the service published before calling back has reached the observer after the two flushes
+		nc.Flush()
+		obs.Flush()
+		drain(time.Millisecond)
+		omu.Lock()
+		o.trace = append(o.trace, "EOnReconnect")
+		omu.Unlock()
+		recon <- struct{}{}
+	})
 	done := make(chan error, 1)
 	go func() { done <- s.Serve(nc) }()
 	select {
@@ -813,7 +964,10 @@ func runLive(srv *server.Server, d desc) (o observed, impl string) {
 		}
 	}
 	sort.Slice(o.subs, func(i, j int) bool { return o.subs[i].subject < o.subs[j].subject })
+	obs.Flush()
+	drain(time.Millisecond)
 	for i := 0; i < d.Extra; i++ {
+		o.script = append(o.script, 2, 1) // a dropped connection: disconnect, then reconnect
 		px.Drop()
 		select {
 		case <-recon:
@@ -824,24 +978,16 @@ func runLive(srv *server.Server, d desc) (o observed, impl string) {
 		nc.Flush()
 	}
 	obs.Flush()
+	omu.Lock()
+	closing = true
+	omu.Unlock()
 	s.Shutdown()
 	select {
 	case <-done:
 	case <-time.After(10 * time.Second):
 		impl = "live: Serve did not return"
 	}
-	for {
-		m, err := och.NextMsg(50 * time.Millisecond)
-		if err != nil {
-			break
-		}
-		pl, ok := decodeReset(m.Data)
-		if !ok {
-			o.other++
-			continue
-		}
-		o.resets = append(o.resets, pl)
-	}
+	drain(50 * time.Millisecond)
 	lg.mu.Lock()
 	o.err = classifyErrs(lg.errs)
 	lg.mu.Unlock()
@@ -908,7 +1054,24 @@ func main() {
 	eliminatedSeen := 0
 
 	var addRun func(kind string, full desc, d desc, ob observed, iv string)
+	opsPool := [][]int{nil, {2, 1}, {1}, {0, 2, 1, 1}, {2, 2, 1, 0}}
+	offPool := [][]int{nil, {1}, nil, {2, 1, 0}}
+	genCount := 0
 	add := func(kind string, d desc) {
+		if o.Replay == "" {
+			// spread the ResetAll / reconnect / disconnect scripts and the SetReset alias over all configurations
+			genCount++
+			if d.Ops == nil {
+				d.Ops = opsPool[genCount%len(opsPool)]
+			}
+			d.Off = offPool[(genCount/len(opsPool))%len(offPool)]
+			d.SetReset = genCount%3 == 1
+			for i := range d.Restart {
+				if d.Restart[i].Ops == nil {
+					d.Restart[i].Ops = opsPool[(genCount+i+1)%len(opsPool)]
+				}
+			}
+		}
 		for _, rr := range runRecorded(d) {
 			addRun(kind, d, rr.cfg, rr.ob, rr.impl)
 		}
